@@ -298,6 +298,34 @@ def run(F, R, tier):
         imps = [i for i in F.impls_of(tr, ID) if not i["trait"]["args"] or i["trait"]["args"] == [ID]]
         ok = len(imps) == 1 and imps[0]["derived"]
         tn = tr.rsplit("::", 1)[-1]
+        if not ok and len(imps) == 1 and tn in ("PartialOrd", "Hash"):
+            # hand-written: partial_cmp = Some(self.cmp(other)) or the field's own partial_cmp; hash feeds exactly the field to the hasher
+            import sibling as SB
+            mname = "partial_cmp" if tn == "PartialOrd" else "hash"
+            mfns = F.find(r"^<%s as %s(<.*>)?>::%s$" % (re.escape(ID), re.escape(tr), mname))
+            if len(mfns) == 1 and F.hir(mfns[0]) is not None:
+                mfn = mfns[0]
+                S0, O0 = ("param", "s0"), ("param", "o0")
+                sv, ov = sym.St(ID, {"0": sym.Sym(S0)}), sym.St(ID, {"0": sym.Sym(O0)})
+                if tn == "PartialOrd":
+                    ps = SB.explore(F, mfn, [sv, ov], opaque=r"Ord::cmp$|Ord>::cmp$|PartialOrd::partial_cmp$|PartialOrd(<.*>)?>::partial_cmp$", rule=r3)
+                    good = bool(ps)
+                    for q in ps:
+                        cs = q.calls(r"::cmp$|::partial_cmp$")
+                        one = len(cs) == 1 and ((SR.pure(cs[0].args[0], S0) and SR.pure(cs[0].args[1], O0)) or
+                                                (sym.term(cs[0].args[0]) == sym.term(sv) and sym.term(cs[0].args[1]) == sym.term(ov)))
+                        rt = sym.term(q.ret)
+                        res_ok = one and (SR.pure(rt, cs[0].result.t) or (rt[:2] == ("ctor", "Some") and SR.pure(rt[2], cs[0].result.t)))
+                        good = good and res_ok and not q.decisions
+                else:
+                    ps = SB.explore(F, mfn, [sv, sym.Sym(("param", "state"))], opaque=r"Hash::hash$|Hash>::hash$", rule=r3)
+                    good = bool(ps)
+                    for q in ps:
+                        hs = q.calls(r"::hash$")
+                        good = good and len(hs) == 1 and SR.pure(hs[0].args[0], S0) and not q.decisions
+                r3.site("impl %s for IotaDID hand-written, %s: %s" % (tn, "the comparison of the CoreDID field (or Some(cmp))" if tn == "PartialOrd" else "hashes exactly the CoreDID field", good))
+                if good:
+                    continue
         if not ok and len(imps) == 1 and tn in ("PartialEq", "Ord"):
             # a hand-written impl: accepted when it is, on its decision table, the comparison of the one (normalised) field and nothing else
             import sibling as SB
@@ -316,7 +344,7 @@ def run(F, R, tier):
                 if ok:
                     continue
         r3.site("impl %s for IotaDID derived: %s" % (tn, ok))
-        r3.require(ok, (ID, tn, "derived"), "%s for IotaDID is neither the derived (field-wise) implementation nor a hand-written comparison of exactly the CoreDID field" % tn)
+        r3.require(ok, (ID, tn, "derived"), "%s for IotaDID is neither the derived (field-wise) implementation nor a hand-written one that uses exactly the CoreDID field" % tn)
     a = F.ast_item(ID)
     if r3.anchor(a, ID + " (ast)"):
         attrs = " ".join(a["attrs"])
